@@ -4,12 +4,12 @@ import os
 import subprocess
 import vf
 
-SEEDS = ["Seed1", "Seed2", "Seed3", "Seed4"]
+SEEDS = ["Seed1", "Seed2", "Seed3", "Seed4", "Seed5"]
 
 
 def export_pairs(tier, d):
     jobs = [dict(module="SqliteModelMC", cfg="SqliteModelMC.cfg", defines={"Seed": s, "Two": "FALSE"}, heap="8g", timeout=3600, keep=True) for s in SEEDS]
-    rs = vf.tlc_many(jobs, parallel=4)
+    rs = vf.tlc_many(jobs, parallel=5)
     out = os.path.join(d, "pairs.ndjson")
     n = 0
     try:
